@@ -852,6 +852,24 @@ func Guard(f func()) (panicked bool, val any, stack string) {
 }
 
 // shortStack keeps the frames between the panic and the harness.
+// FuncsOnly reduces a stack returned by Guard to its function names: no
+// argument values, offsets or file paths, which differ from process to
+// process (and must not reach an event log that is compared across
+// processes).
+func FuncsOnly(stack string) string {
+	var out []string
+	for _, l := range strings.Split(stack, "\n") {
+		if l == "" || strings.HasPrefix(l, "\t") {
+			continue
+		}
+		if i := strings.LastIndex(l, "("); i > 0 {
+			l = l[:i]
+		}
+		out = append(out, l)
+	}
+	return strings.Join(out, " < ")
+}
+
 func shortStack(s string) string {
 	lines := strings.Split(s, "\n")
 	var out []string
